@@ -51,7 +51,7 @@ man = {
                                    "working tree; plus a failing-input search on the implementation"}],
     "checks": checks,
     "not_applicable": na,
-    "notes": "See DESIGN.md. known_findings.json lists recorded genuine defects (KNOWN-FINDING lines) and fixed ones.",
+    "notes": "See DESIGN.md (section 0 = as built). known_findings/CXX.json (one file per property, read by the checks; aggregate generated into known_findings.json) list recorded genuine defects (status known -> KNOWN-FINDING lines) and repaired ones (status fixed, with the fix: commit).",
 }
 json.dump(man, open(os.path.join(ROOT, "MANIFEST.json"), "w"), indent=1)
 print("claimed:", [c["property_id"] for c in checks], "not claimed:", [n["property_id"] for n in na])
